@@ -1,6 +1,8 @@
 #!/bin/bash
 # usage: seed_test.sh <patch.diff> <prop> [tier] [extra check args...]
-# Applies a seeded change to /repo, runs ./check for the property, and always restores /repo.
+# Applies a seeded change to /repo, runs ./check for the property, and always restores /repo and the property's
+# evidence file (a run against a seeded change must not leave its "violated" evidence behind).
+# Prefer tools/seed_iso.sh / tools/seed_matrix.py: they work in scratch copies and touch neither /repo nor the evidence.
 set -u
 PATCH=$1; PROP=$2; TIER=${3:-quick}; shift; shift; shift || true
 cd /repo || exit 3
@@ -8,8 +10,10 @@ if ! git diff --quiet; then echo "refusing: /repo has uncommitted changes"; exit
 if ! git apply --3way "$PATCH" 2>/tmp/seed_apply.err && ! git apply "$PATCH" 2>>/tmp/seed_apply.err; then echo "PATCH DOES NOT APPLY"; cat /tmp/seed_apply.err; git checkout -- . ; exit 4; fi
 git reset -q   # un-stage whatever --3way staged
 cd /verif
+cp "evidence/$PROP.json" "/tmp/seed_test_evidence_$PROP.json" 2>/dev/null
 ./check "$PROP" --tier "$TIER" "$@" 2>&1 | grep -v "^KNOWN-FINDING" | cut -c1-420 | head -12
 RC=${PIPESTATUS[0]}
 git -C /repo checkout -- .
+[ -f "/tmp/seed_test_evidence_$PROP.json" ] && mv "/tmp/seed_test_evidence_$PROP.json" "evidence/$PROP.json"
 echo "check exit=$RC"
 exit $RC
